@@ -575,8 +575,8 @@ func (fr *Frame) logCall(st, pre *State, key, recv string, args []Val, res []Val
 			strs = append(strs, vc.term(pre, a))
 		} else if a.T != nil && vc.S.Sort(a.T) == "Slice_Int" {
 			// []byte payloads are recorded as the string they were converted from
-			vc.declareFun("string_of_Slice_Int", []string{"Slice_Int"}, "String")
-			strs = append(strs, fmt.Sprintf("(string_of_Slice_Int %s)", vc.term(pre, a)))
+			vc.declareFun("string_of_bytes", []string{"Slice_Int"}, "String")
+			strs = append(strs, fmt.Sprintf("(string_of_bytes %s)", vc.term(pre, a)))
 		}
 	}
 	errT := ""
@@ -744,14 +744,14 @@ func (fr *Frame) execConvert(in *ssa.Convert, st *State) Val {
 		}
 		return Val{T: to, Term: fmt.Sprintf("(string_of_rune %s)", r)}
 	case isString(to): // string([]byte) / string([]rune)
-		n := "string_of_" + fs
+		n := "string_of_" + convKind(from)
 		vc.declareFun(n, []string{fs}, "String")
 		return Val{T: to, Term: fmt.Sprintf("(%s %s)", n, vc.term(st, x))}
 	case isString(from): // []byte(s) / []rune(s)
-		n := "to_" + ts
+		n := "to_" + convKind(to)
 		vc.declareFun(n, []string{"String"}, ts)
 		t := fmt.Sprintf("(%s %s)", n, vc.term(st, x))
-		inv := "string_of_" + ts
+		inv := "string_of_" + convKind(to)
 		vc.declareFun(inv, []string{ts}, "String")
 		key := "conv:" + t
 		if !vc.wf[key] {
@@ -772,6 +772,16 @@ func (fr *Frame) execConvert(in *ssa.Convert, st *State) Val {
 	}
 	vc.outside("conversion %s -> %s", from, to)
 	return Val{T: to, Term: vc.fresh("conv", ts)}
+}
+
+// convKind names the two string<->slice conversions apart ([]byte vs []rune share the sort Slice_Int).
+func convKind(t types.Type) string {
+	if e := elemType(t); e != nil {
+		if b, ok := e.Underlying().(*types.Basic); ok && b.Kind() == types.Uint8 {
+			return "bytes"
+		}
+	}
+	return "runes"
 }
 
 // typeTag returns a distinct Int constant identifying a concrete Go type.
@@ -1159,7 +1169,10 @@ func (fr *Frame) execIterate(c *ssa.CallCommon, args []Val, resT types.Type, con
 			fv[f] = clo.Bindings[i]
 		}
 	}
-	fr.collectWrites(clo.Fn.Blocks, map[ssa.Value]Val{}, fv, cells, &all, 1)
+	fr.curState = st
+	fr.lastPartial = map[*Cell]map[int]bool{}
+	fr.collectWrites(clo.Fn.Blocks, map[ssa.Value]Val{}, fv, cells, &all, 0)
+	partial := fr.lastPartial
 	if all {
 		for cl := range st.cells {
 			cells[cl] = true
@@ -1173,7 +1186,7 @@ func (fr *Frame) execIterate(c *ssa.CallCommon, args []Val, resT types.Type, con
 		}
 		sortCells(cl)
 		for _, cc := range cl {
-			s.cells[cc] = vc.fresh("hv_"+cc.Name, vc.cellSort(cc))
+			fr.havocCell(s, cc, partial[cc])
 		}
 		vis := s.cells[vcell]
 		vc.fact(implies(cond, fmt.Sprintf("(forall ((?k %s)) (=> (select %s ?k) (and (not %s) %s)))", ks, vis, mapNil(ms, mterm), mapHas(ms, mterm, "?k"))))
